@@ -157,6 +157,25 @@ def print_assumptions(rel: str) -> tuple[bool, dict]:
     return ok, res
 
 
+def coqchk(pid: str, timeout: int = 1800) -> tuple[bool, dict]:
+    """independent re-check of props/<pid>.vo and everything it depends on; returns the context summary (axioms, type-in-type, unsafe fixpoints, assumed positivity)"""
+    r = subprocess.run(["timeout", str(timeout), "coqchk", "-silent", "-o"] + QFLAGS + [f"PVProps.{pid}"], cwd=COQ, capture_output=True, text=True)
+    out = r.stdout + r.stderr
+    res = {"rc": r.returncode}
+    m = re.search(r"CONTEXT SUMMARY\s*=+\s*(.*)", out, re.S)
+    if m:
+        summary = " ".join(m.group(1).split())
+        res["summary"] = summary
+        for key, pat in (("axioms", r"\* Axioms: (.*?) \*"), ("type_in_type", r"type-in-type: (.*?) \*"), ("unsafe_fixpoints", r"unsafe \(co\)fixpoints: (.*?) \*"),
+                         ("assumed_positivity", r"positivity is assumed: (.*)$")):
+            mm = re.search(pat, summary)
+            res[key] = mm.group(1).strip() if mm else "?"
+    else:
+        res["error"] = out[-1500:]
+    ok = r.returncode == 0 and all(res.get(k) == "<none>" for k in ("axioms", "type_in_type", "unsafe_fixpoints", "assumed_positivity"))
+    return ok, res
+
+
 CASE_HEADER = "From Coq Require Import ZArith List Bool Arith.\nImport ListNotations.\n"
 
 
